@@ -296,6 +296,16 @@ def depth_request(rnd, ctx, J, req):
             'fee_mode': 'auto', 'n_change': rnd.choice([0, 0, 0, 2])}
 
 
+def bump_request(rnd, ctx, req, value):
+    """send_to that consumes one output completely (explicit fee, nothing left for change), not broadcast, then bumped"""
+    from vf import wallet_env
+    fmin, fmax, dust = fee_limits(ctx.network)
+    fee = int(fmin * rnd.choice([3, 5, 8]) * (0.45 if ctx.kind == 'multisig' else 0.25))
+    addr, script = wallet_env.external_address(rnd, ctx.network)
+    return {'kind': 'rbf_bump', 'min_confirms': 1, 'broadcast': False, 'rseed': req['rseed'], 'fee_mode': 'explicit', 'fee': fee,
+            'recipients': [{'address': addr, 'script': script.hex(), 'amount': int(value - fee)}], 'n_change': 1}
+
+
 def execute(req, ctx):
     """Run the request through the library API. Returns the WalletTransaction."""
     from vf import wallet_env
@@ -428,6 +438,14 @@ def run_wallet(case, col):
         deep_total = sum(u['value'] for u in CH.unspent(set(addrs)).values())
         CH.fund(rnd.choice(addrs), 3 * deep_total + 777, network, confirmed=True)
         CH.mine(rnd.choice([0, 1]))
+    if case.get('bump_scenario'):
+        # dedicated class: a few equal outputs; every request spends one of them completely (no change output), is not
+        # broadcast and is then fee-bumped, so the bump has to pull in another output of the wallet
+        n_utxo = 0
+        case['_bump_value'] = rnd.choice([2, 5]) * 10 ** 6 * (100 if network.startswith('dogecoin') else 1)
+        for j in range(rnd.randint(3, 5)):
+            CH.fund(rnd.choice(addrs), case['_bump_value'], network, confirmed=True)
+        CH.mine(2)
     for j in range(n_utxo):
         v = rnd.choice([eq, eq, 600, 999, 1000, 1001, 5000 * scale, 10 ** 7 * scale + j, 10 ** 8 * scale + j, rnd.randrange(2000, 10 ** 7) * scale])
         # several outputs of one funding transaction (same txid) and funding at different depths
@@ -457,6 +475,8 @@ def run_wallet(case, col):
             req['network'] = ctxB.network
         if case.get('depth_scenario'):
             req = depth_request(rnd, ctx, J, req)
+        if case.get('bump_scenario'):
+            req = bump_request(rnd, ctx, req, case['_bump_value'])
         label = '%s/%s' % (req['kind'], req['fee_mode'])
         before_unspent = J.wallet_unspent(req['min_confirms'])
         before_all = J.wallet_unspent(0)
@@ -619,6 +639,12 @@ def run_shard(spec, col):
             case['net2'] = rnd.choice(other)
             if 'dogecoin' in (network, case['net2']):
                 case['wt'] = wt = 'legacy'
+        run_wallet(case, col)
+    for k in range(spec.get('n_depth', 1)):
+        network = rnd.choice(NETWORKS)
+        wt = rnd.choice(['legacy', 'p2sh-segwit', 'segwit']) if not network.startswith('dogecoin') else 'legacy'
+        case = {'wseed': '%d-%d-bump%d' % (spec['seed'], spec['shard'], k), 'kind': rnd.choice(['hd', 'hd', 'single', 'multisig']), 'wt': wt,
+                'network': network, 'n_utxo': 0, 'n_req': 2, 'bump_scenario': True}
         run_wallet(case, col)
     for k in range(spec.get('n_depth', 1)):
         network = rnd.choice(NETWORKS)
